@@ -15,7 +15,7 @@ val_eq = z3.Function('val_eq', Ref, Ref, z3.BoolSort())     # == on containers (
 sig_name = z3.Function('sig_name', z3.IntSort(), Ref)        # signals.name_for_signal
 id_of = z3.Function('id_of', Ref, z3.IntSort())
 
-BUILTIN_TYPES = {'deque', 'list', 'dict', 'Queue', 'PriorityQueue', 'Thread', 'ThreadEvent', 'RLock', 'str',
+BUILTIN_TYPES = {'pqheap', 'deque', 'list', 'dict', 'Queue', 'PriorityQueue', 'Thread', 'ThreadEvent', 'RLock', 'str',
                  'datetime', 'uuid', 'tuple', 'match', 'frame', 'code'}
 
 
@@ -53,7 +53,24 @@ def new_seq(it, pytype, items=(), maxlen=None, name='seq'):
 
 
 def new_list(it, items, elem=None):
-    return new_seq(it, 'list<%s>' % elem if elem else 'list', items, None, 'list')
+    r = new_seq(it, 'list<%s>' % elem if elem else 'list', items, None, 'list')
+    c = it.c
+    if '$map' in c.heap:
+        # a newly allocated list is not yet stored in any dict
+        x = z3.Const('x!fr', Ref)
+        k = z3.Const('k!fr', StrV)
+        m = c.heap['$map']
+        c.assume(z3.ForAll([x, k], z3.Select(z3.Select(m, x), k) != r.e,
+                           patterns=[z3.Select(z3.Select(m, x), k)]))
+    return r
+
+
+def new_dict(it, pytype='dict'):
+    c = it.c
+    r = c.fresh_ref('dict', pytype)
+    c.hset(r, '$has', z3.K(StrV, z3.BoolVal(False)))
+    c.hset(r, '$len', z3.IntVal(0))
+    return r
 
 
 def shifted(c, old, lo, hi, delta, name):
@@ -72,7 +89,7 @@ def seq_append(it, obj, v):
     rv = c.to_ref(v)
     room = z3.Or(m < 0, n < m)
     d = c.decide(room)
-    if d is True:
+    if d is True or base_type(obj.pytype) == 'list':
         c.hset(obj, '$items', z3.Store(items, n, rv))
         c.hset(obj, '$len', n + 1)
         return
@@ -376,7 +393,7 @@ def module_attr(it, mod, attr):
         return SBuiltin('uuid.' + attr)
     if mod.name == 'stdlib_datetime':
         return SBuiltin('datetime.' + attr)
-    if mod.name in ('re', 'inspect', 'json', 'traceback', 'sys'):
+    if mod.name in ('re', 'inspect', 'json', 'traceback', 'sys', 'itertools'):
         return SBuiltin(mod.name + '.' + attr)
     raise Unsupported('module attribute %s.%s' % (mod.name, attr))
 
@@ -388,6 +405,12 @@ def builtin_attr(it, obj, attr):
         return c.read(obj, attr)
     if bt == 'match':
         return SBuiltin('match.' + attr, obj)
+    if bt in ('Queue', 'PriorityQueue') and attr == 'mutex':
+        return SRef(c.hget(obj, 'mutex'), 'Lock')
+    if bt in ('Queue', 'PriorityQueue') and attr == 'queue':
+        r = SRef(c.hget(obj, '$heap'), 'pqheap')
+        r.owner = obj
+        return r
     if bt == 'deque' and attr == 'maxlen':
         return SInt(c.hget(obj, '$maxlen'))
     if bt == 'Queue' and attr == 'unfinished_tasks':
@@ -511,6 +534,18 @@ def call_builtin(it, b, args, kwargs, node):
         raise Unsupported('len of %r' % (v,))
     if n == 'id':
         return SInt(id_of(c.to_ref(args[0])))
+    if n == 'next':
+        v = args[0]
+        if isinstance(v, SRef) and v.pytype == 'counter':
+            # itertools.count: every next() returns a number larger than all it returned before
+            key = 'g_counter_' + v.e.sexpr()
+            last = c.ghost.get(key)
+            r = c.fresh('count', z3.IntSort())
+            if last is not None:
+                c.assume(r > last)
+            c.ghost[key] = r
+            return SInt(r)
+        raise Unsupported('next() of %r' % (v,))
     if n == 'callable':
         v = args[0]
         if isinstance(v, (SFunc, SClass)):
@@ -619,6 +654,11 @@ def call_builtin(it, b, args, kwargs, node):
         return r
     if n.startswith('str.'):
         return str_call(it, n.split('.', 1)[1], obj, args, kwargs)
+    if n.startswith('subq.'):
+        hook = w.hooks.get('subq')
+        if hook is None:
+            raise Unsupported('subscriber queue call without a model')
+        return hook(it, obj, n.split('.', 1)[1], args)
     bt = base_type(n.split('.', 1)[0]) if '.' in n else None
     meth = n.split('.', 1)[1] if '.' in n else None
     if bt in ('deque', 'list'):
@@ -626,7 +666,17 @@ def call_builtin(it, b, args, kwargs, node):
     if bt == 'dict':
         if meth == 'keys':
             return SRef(obj.e, 'dict_keys')
+        if meth == 'clear':
+            c.hset(obj, '$has', z3.K(StrV, z3.BoolVal(False)))
+            c.hset(obj, '$len', z3.IntVal(0))
+            return None
         raise Unsupported('dict.%s' % meth)
+    if bt == 'pqheap':
+        if meth == 'clear' and getattr(obj, 'owner', None) is not None:
+            # the underlying container of a queue.Queue emptied in place
+            c.hset(obj.owner, 'qsize', z3.IntVal(0))
+            return None
+        raise Unsupported('queue container .%s' % meth)
     if bt == 'Queue':
         return queue_call(it, obj, meth, args, kwargs)
     if bt == 'PriorityQueue':
